@@ -30,14 +30,49 @@ def isBlank (c : Char) : Bool := c = ' ' || c = '\t' || c = '\r' || c = '\n'
 def flush (cur : List Char) (acc : List Token) : List Token :=
   if cur.isEmpty then acc else .text (String.ofList cur.reverse) :: acc
 
-def tokenizeAux : List Char → List Char → List Token → List Token
-  | [], cur, acc => (flush cur acc).reverse
-  | c :: rest, cur, acc =>
-    if isBlank c then tokenizeAux rest [] (flush cur acc)
-    else if isSeparatorChar c then tokenizeAux rest [] (.sep c :: flush cur acc)
-    else tokenizeAux rest (c :: cur) acc
+/-- State of the splitter inside a `"…"` / `'…'` literal.  The real parser rebuilds the text of a
+    literal from token *columns*: a token that starts `g` columns after the end of the previous one
+    is preceded by `g` blanks (none before the first token).  The parser model works without
+    locations and inserts exactly one blank (canonical layout); for `g ≥ 2` the other `g - 1` blanks
+    are made part of the token text here (a separator inside a literal then becomes a text token,
+    which `stringLoop` treats alike), so that model and code denote the same string for every
+    one-line layout whose tokens are at least one blank apart. -/
+structure LitSt where
+  lit : Option Char := none      -- the open delimiter
+  seen : Bool := false           -- a token of the literal has been read
+  blanks : Nat := 0              -- blanks since the end of the previous token
 
-def simpleTokenize (s : String) : List Token := tokenizeAux s.toList [] []
+def LitSt.pad (l : LitSt) : List Char :=
+  if l.lit.isSome && l.seen then List.replicate (l.blanks - 1) ' ' else []
+
+def tokenizeAux (aware : Bool) : List Char → List Char → List Token → LitSt → List Token
+  | [], cur, acc, _ => (flush cur acc).reverse
+  | c :: rest, cur, acc, l =>
+    if isBlank c then
+      let l := if cur.isEmpty then { l with blanks := l.blanks + 1 } else { l with blanks := 1, seen := true }
+      tokenizeAux aware rest [] (flush cur acc) l
+    else if isSeparatorChar c then
+      let l := if cur.isEmpty then l else { l with blanks := 0, seen := true }
+      let acc := flush cur acc
+      match l.lit with
+      | some d =>
+        if c = d then tokenizeAux aware rest [] (.sep c :: acc) {}
+        else
+          let tok : Token := if l.pad.isEmpty then .sep c else .text (String.ofList (l.pad ++ [c]))
+          tokenizeAux aware rest [] (tok :: acc) { l with blanks := 0, seen := true }
+      | none =>
+        if aware && (c = '"' || c = '\'') then tokenizeAux aware rest [] (.sep c :: acc) { lit := some c }
+        else tokenizeAux aware rest [] (.sep c :: acc) l
+    else
+      -- `cur` is reversed: the padding goes underneath the first character of a new token
+      let cur := if cur.isEmpty then c :: l.pad else c :: cur
+      tokenizeAux aware rest cur acc l
+
+/-- `aware = true` (texts of the grammar-based generators, where a `"` / `'` only ever delimits a
+    literal): gaps inside literals are kept as described at `LitSt`.  `aware = false` (`parse fuzz`:
+    arbitrary texts, a stray delimiter may appear where the parser reads no literal; the answer
+    carries no literal anyway): the plain blank/separator splitter. -/
+def simpleTokenize (s : String) (aware : Bool := true) : List Token := tokenizeAux aware s.toList [] [] {}
 
 def decodeText (hex : String) : Option String := do
   let bs ← hexToBytes hex
@@ -201,7 +236,7 @@ def handle (args : List String) : String :=
     | none => "bad-op"
     | some text =>
       if !inFuzzDomain text then "skip"
-      else match parseModule (simpleTokenize text) with
+      else match parseModule (simpleTokenize text false) with
         | .error e => "err parse:" ++ errStr e
         | .ok m =>
           match tryResolve m with
